@@ -116,6 +116,37 @@ def run(tier, seed, which="C04"):
             groups.append(dict(gid="L%d" % L, rel="rows", prop="C04", members=[dict(files=f, type=5, threads=2, label=lab) for lab, f in pres], key="L%d" % L, labels=[lab for lab, f in pres]))
     V.sample(dict(group="set0", presentations=groups[0]["labels"]))
     rel.run_groups(V, groups, wd, per_batch=2, timeout=900)
+    # ---- every presentation file on its own against the line-level reader model (Reader.tla): names, residues, gap vectors
+    allfiles = []
+    for g in groups:
+        for m in g["members"]:
+            for f in m["files"]:
+                if os.path.getsize(f) < 400000:
+                    allfiles.append(f)
+    rchunks = [allfiles[i:i + 60] for i in range(0, len(allfiles), 60)]
+
+    def rdo(ci):
+        cwd2 = os.path.join(wd, "reader%d" % ci)
+        os.makedirs(cwd2, exist_ok=True)
+        lines = ["level 0"]
+        for k, f in enumerate(rchunks[ci]):
+            lines += ["note F%d" % k, "read 0 %s" % f, "dump 0 in full", "free 0"]
+        tp, rc, err = kv.run_kvdrive("\n".join(lines) + "\n", cwd2, "t", timeout=300)
+        out = []
+        for e in kv.read_trace(tp):
+            out.append(e)
+            if e.get("e") == "Note" and e["text"].startswith("F"):
+                data = open(rchunks[ci][int(e["text"][1:])], "rb").read().split(b"\n")
+                if data and data[-1] == b"":
+                    data = data[:-1]
+                out.append(dict(e="File", id=e["text"], lines=[list(x) for x in data]))
+        kv.write_ndjson(tp, out)
+        return ci, kv.run_tlc("ReaderTrace", "ReaderTrace.cfg", cwd2, trace=tp, timeout=1800, heap="4g")
+    for ci, rres in kv.pmap(rdo, range(len(rchunks)), workers=10):
+        V.add_tlc(rres)
+        V.extra["files_matched_against_reader_model"] = V.extra.get("files_matched_against_reader_model", 0) + len(rchunks[ci])
+        for (ln, fid, items) in rres.divs:
+            V.divergence("reader model vs kalign_read_input on %s: %s" % (rchunks[ci][int(fid[1:])], ",".join(sorted(items))))
     # ---- the command line: stdin + files (stdin is read first)
     cli_groups = []
     for i in range(3 if tier == "quick" else 25):
